@@ -355,7 +355,19 @@ pub fn check_ts_tcp(
 ) -> (Option<ObservableUptime>, Option<ObservableUptime>) {
     // Create a key that identifies this endpoint's timestamps
     // Client and server timestamps are tracked separately
-    let tracking_key = ConnectionKey { connection: connection.clone(), is_client: from_client };
+    let mut tracking_key = ConnectionKey { connection: connection.clone(), is_client: from_client };
+
+    // `from_client` comes from the handshake flags for SYN / SYN+ACK but from a port heuristic for
+    // every later segment, and the two can disagree (server on a port above 1024, client port
+    // below it). The connection tuple is directed, so an entry stored under the other role belongs
+    // to this very endpoint: keep using it instead of starting a second one.
+    if !connection_tracker.contains_key(&tracking_key) {
+        let other_role =
+            ConnectionKey { connection: connection.clone(), is_client: !from_client };
+        if connection_tracker.contains_key(&other_role) {
+            tracking_key = other_role;
+        }
+    }
 
     // Create TcpTimestamp for current packet
     let current_ts = TcpTimestamp::now(ts_val);
